@@ -231,6 +231,10 @@ func (a *attributeQuery) Select(t iterator) NodeNavigator {
 			if node == nil {
 				return nil
 			}
+			if node.NodeType() != ElementNode {
+				// Only elements have attributes.
+				continue
+			}
 			node = node.Copy()
 			a.iterator = func() NodeNavigator {
 				for {
